@@ -1,0 +1,35 @@
+//go:build verif
+
+package crdt
+
+// Contracts for property C40, CRDT side: the state accessors used by the wire
+// codec expose / rebuild exactly the causal state.
+
+//@ property C40
+
+// same-content relation between two maps
+//@ spec func same_slots(a map[string]uint64, b map[string]uint64) bool = forall k string :: has(a, k) == has(b, k) && (has(a, k) ==> a[k] == b[k])
+
+//@ func (*GCounter).State(c)
+//@   requires c.state != nil
+//@   ensures exposes-every-slot: result != nil && same_slots(result, c.state)
+//@   ensures copy-not-alias: result != c.state
+//@   ensures other-maps-untouched: only_changes(result) && fresh(result)
+
+//@ func GCounterFromState(state)
+//@   ensures rebuilds-every-slot: result != nil && result.state != nil && same_slots(result.state, state)
+//@   ensures no-pending-delta: result.delta != nil && forall k string :: !has(result.delta, k)
+//@   ensures new-object: fresh(result) && fresh(result.state) && fresh(result.delta) && old_objects_unchanged(result)
+//@   ensures older-maps-untouched: forall m map[string]uint64, k string :: m != result.state && m != result.delta ==> has(m, k) == old(has(m, k)) && m[k] == old(m[k])
+
+//@ func (*PNCounter).State(c)
+//@   closed-heap on
+//@   requires c.increments != nil && c.decrements != nil && c.increments.state != nil && c.decrements.state != nil
+//@   ensures exposes-both-halves: same_slots(result0, c.increments.state) && same_slots(result1, c.decrements.state)
+
+//@ func PNCounterFromState(increments, decrements)
+//@   closed-heap on
+//@   ensures rebuilds-both-halves: result != nil && result.increments != nil && result.decrements != nil && same_slots(result.decrements.state, decrements)
+
+//@ func LWWRegisterFromState(value, timestampNanos, nodeID)
+//@   ensures rebuilds-the-register: result != nil && result.value == value && result.timestamp == timestampNanos && result.nodeID == nodeID
